@@ -125,6 +125,8 @@ def search(ctx, suspects, budget):
                 todo.append(json.load(open(os.path.join(d, f)))["case"])
     todo += [{"steps": st, "corr": co} for st, co in CL.typed_family()]
     n = 0
+    prev = None
+    core.fresh_impl()
     while len(out) < 3:
         change = None
         if todo:
@@ -138,10 +140,24 @@ def search(ctx, suspects, budget):
                 change = c01.change_for(steps, corr, ctx.rng)
         n += 1
         why = oracle_program(steps, corr, change)
+        if why and not c01.alone_fails(oracle_program, steps, corr, change):
+            # fine on its own from a fresh library state: it failed because of what an earlier program left behind
+            sess = {"session": [prev, {"steps": steps, "corr": corr, "change": change}]} if prev else None
+            if sess and c01.session_why(oracle_program, sess):
+                out.append(Violation(ID, "program", sess, c01.session_why(oracle_program, sess)))
+            else:
+                out.append(Violation(ID, "program", {"steps": steps, "corr": corr, "change": change},
+                                     why + " (only after the programs of this run, not reproduced from a fresh library state)"))
+            core.fresh_impl()
+            prev = None
+            continue
+        prev = {"steps": steps, "corr": corr, "change": change}
         if why:
-            if change is None or oracle_program(steps, corr) is not None:
+            if change is None or c01.alone_fails(oracle_program, steps, corr, None):
                 change = None
-                steps, corr = c01.shrink_program(steps, corr, lambda s, c: oracle_program(s, c) is not None)
+                # (every candidate is judged from a fresh library state: the shrunk program fails on its own)
+                steps, corr = c01.shrink_program(steps, corr, lambda s, c: c01.alone_fails(oracle_program, s, c, None))
+            core.fresh_impl()
             why = oracle_program(steps, corr, change) or why
             out.append(Violation(ID, "program", {"steps": steps, "corr": corr, "change": change}, why))
     ctx.notes.append("oracle: {} programs, every (object, measurement) derivative against finite differences".format(n))
@@ -150,6 +166,10 @@ def search(ctx, suspects, budget):
 
 
 def replay(ctx, v):
+    if "session" in v["case"]:
+        why = c01.session_why(oracle_program, v["case"])
+        CL.reset_world()
+        return Violation(ID, v["kind"], v["case"], why) if why else None
     why = oracle_program(v["case"]["steps"], v["case"]["corr"], v["case"].get("change"))
     CL.reset_world()
     return Violation(ID, v["kind"], v["case"], why) if why else None
